@@ -110,24 +110,22 @@ theorem Annotation.ext11 (a b : Annotation) (h1 : a.seq = b.seq) (h2 : a.isotope
     (h11 : a.adducts = b.adducts) : a = b := by
   cases a; cases b; simp_all
 
-/-- the three phases on one canonical chain followed by the end of the input or by `+ next chain` -/
-theorem phases_chain (plus : Plus) (a : Annotation) (hc : canon a = true) (conn : Option Bool) (rest : List Char)
+/-- the middle and end phases on the middle / end text of a canonical chain, started from ANY accumulator whose
+middle / end fields are still empty (whatever the leading sections put into it) -/
+theorem phases_tail (plus : Plus) (a : Annotation) (hc : canon a = true) (acc1 : Annotation)
+    (g1 : acc1.seq = []) (g2 : acc1.internal = none) (g3 : acc1.intervals = none) (g4 : acc1.cterm = none)
+    (g5 : acc1.charge = none) (g6 : acc1.adducts = none) (conn : Option Bool) (rest : List Char)
     (hrest : ChainStop rest) :
-    ∃ a1 r1 a2 r2,
-      parseStart true { seq := [] } (serialize plus a ++ rest) = .ok (a1, r1) ∧
-      parseMiddle a1 none r1 = .ok (a2, r2) ∧
-      parseEnd a2 conn r2 = .ok (a, stopConn conn rest, stopRest rest) := by
+    ∃ a2 r2,
+      parseMiddle acc1 none
+        (serializeMiddle plus a ++ (ctermText plus a.cterm ++ (chargeText plus a.charge a.adducts ++ rest))) = .ok (a2, r2) ∧
+      parseEnd a2 conn r2 =
+        .ok ({ acc1 with seq := a.seq, internal := a.internal, intervals := a.intervals, cterm := a.cterm,
+                         charge := a.charge, adducts := a.adducts }, stopConn conn rest, stopRest rest) ∧
+      StartStop (serializeMiddle plus a ++ (ctermText plus a.cterm ++ (chargeText plus a.charge a.adducts ++ rest))) := by
   simp only [canon, Bool.and_eq_true, Bool.not_eq_eq_eq_not, Bool.not_true] at hc
   obtain ⟨⟨⟨⟨⟨⟨⟨⟨⟨⟨⟨hne, hAA⟩, hlab⟩, hst⟩, hiso⟩, hunk⟩, hnt⟩, hD⟩, hL⟩, hct⟩, hch⟩, had⟩ := hc
   have hne' : a.seq ≠ [] := by intro h; rw [h] at hne; simp at hne
-  -- the text
-  have htext : serialize plus a ++ rest =
-      optMods '{' '}' plus a.labile ++ (optMods '<' '>' plus a.static ++ (optMods '<' '>' plus a.isotope ++
-        (optSection plus '?' a.unknown ++ (optSection plus '-' a.nterm ++
-          (serializeMiddle plus a ++ (ctermText plus a.cterm ++ (chargeText plus a.charge a.adducts ++ rest))))))) := by
-    unfold serialize
-    rw [serializeStart_eq, serializeEnd_eq]
-    simp only [List.append_assoc]
   -- what follows the charge part
   have hQ : chargeText plus a.charge a.adducts ++ rest = [] ∨
       ∃ c r, chargeText plus a.charge a.adducts ++ rest = c :: r ∧ (c = '/' ∨ c = '+') := by
@@ -163,35 +161,24 @@ theorem phases_chain (plus : Plus) (a : Annotation) (hc : canon a = true) (conn 
       obtain ⟨hl, _⟩ := canonOptMods_some _ _ _ hct
       rw [ctermText_some plus l hl]
       exact ⟨ModStop.cons (by decide) (by decide), by simp⟩
-  -- start
-  have hS := parseStart_sections plus a.labile a.static a.isotope a.unknown a.nterm hlab hst hiso hunk hnt
-    (serializeMiddle plus a ++ (ctermText plus a.cterm ++ (chargeText plus a.charge a.adducts ++ rest)))
-    (startStop_middle plus a hne' hAA hL _)
   -- middle
-  have hM := parseMiddle_serializeMiddle' plus a
-    { seq := [], labile := a.labile, static := a.static, isotope := a.isotope, unknown := a.unknown, nterm := a.nterm }
-    hAA hD hL rfl rfl rfl _ hCstop
+  have hM := parseMiddle_serializeMiddle' plus a acc1 hAA hD hL g1 g2 g3 _ hCstop
   let a2 : Annotation :=
-    { seq := a.seq, labile := a.labile, static := a.static, isotope := a.isotope,
-      unknown := a.unknown, nterm := a.nterm, internal := a.internal, intervals := a.intervals, cterm := a.cterm }
-  let a1 : Annotation :=
-    { seq := [], labile := a.labile, static := a.static, isotope := a.isotope, unknown := a.unknown, nterm := a.nterm }
-  refine ⟨a1, serializeMiddle plus a ++ (ctermText plus a.cterm ++ (chargeText plus a.charge a.adducts ++ rest)),
-    a2, chargeText plus a.charge a.adducts ++ rest, ?_, ?_, ?_⟩
-  · rw [htext]; exact hS
+    { acc1 with seq := a.seq, internal := a.internal, intervals := a.intervals, cterm := a.cterm }
+  refine ⟨a2, chargeText plus a.charge a.adducts ++ rest, ?_, ?_, startStop_middle plus a hne' hAA hL _⟩
   · rw [hM]
     cases hcq : a.cterm with
     | none =>
       simp only [ctermText, List.nil_append]
       rw [pm_stop _ _ _ hQ]
-      simp [a2, hcq]
+      simp [a2, hcq, g4]
     | some l =>
       rw [hcq] at hct
       obtain ⟨hl, hall⟩ := canonOptMods_some _ _ _ hct
       rw [ctermText_some plus l hl]
       simp only [List.cons_append]
       rw [pm_cterm plus _ _ l hall _ hQstop]
-      simp [addMods, a2, hcq]
+      simp [addMods, a2, hcq, g4]
   · unfold chargeText
     cases hcq : a.charge with
     | none =>
@@ -202,14 +189,36 @@ theorem phases_chain (plus : Plus) (a : Annotation) (hc : canon a = true) (conn 
         simp only [optMods, List.append_nil, List.nil_append]
         rw [parseEnd_stop _ _ _ hrest]
         congr 2
-        exact Annotation.ext11 _ _ rfl rfl rfl rfl rfl rfl rfl rfl rfl hcq.symm haq.symm
+        exact Annotation.ext11 _ _ rfl rfl rfl rfl rfl rfl rfl rfl rfl g5 g6
     | some ch =>
       rw [hcq] at hch had
       simp only [decide_eq_true_eq] at hch
       simp only [hch, ↓reduceIte, List.cons_append, List.append_assoc]
-      rw [parseEnd_charge plus _ rfl conn ch a.adducts had rest hrest, parseEnd_stop _ _ _ hrest]
-      congr 2
-      exact Annotation.ext11 _ _ rfl rfl rfl rfl rfl rfl rfl rfl rfl hcq.symm rfl
+      rw [parseEnd_charge plus a2 (by simp [a2, g6]) conn ch a.adducts had rest hrest, parseEnd_stop _ _ _ hrest]
+
+/-- the three phases on one canonical chain followed by the end of the input or by the joiner of the next chain -/
+theorem phases_chain (plus : Plus) (a : Annotation) (hc : canon a = true) (conn : Option Bool) (rest : List Char)
+    (hrest : ChainStop rest) :
+    ∃ a1 r1 a2 r2,
+      parseStart true { seq := [] } (serialize plus a ++ rest) = .ok (a1, r1) ∧
+      parseMiddle a1 none r1 = .ok (a2, r2) ∧
+      parseEnd a2 conn r2 = .ok (a, stopConn conn rest, stopRest rest) := by
+  have hc' := hc
+  simp only [canon, Bool.and_eq_true, Bool.not_eq_eq_eq_not, Bool.not_true] at hc'
+  obtain ⟨⟨⟨⟨⟨⟨⟨⟨⟨⟨⟨hne, hAA⟩, hlab⟩, hst⟩, hiso⟩, hunk⟩, hnt⟩, hD⟩, hL⟩, hct⟩, hch⟩, had⟩ := hc'
+  have htext : serialize plus a ++ rest =
+      optMods '{' '}' plus a.labile ++ (optMods '<' '>' plus a.static ++ (optMods '<' '>' plus a.isotope ++
+        (optSection plus '?' a.unknown ++ (optSection plus '-' a.nterm ++
+          (serializeMiddle plus a ++ (ctermText plus a.cterm ++ (chargeText plus a.charge a.adducts ++ rest))))))) := by
+    unfold serialize
+    rw [serializeStart_eq, serializeEnd_eq]
+    simp only [List.append_assoc]
+  let a1 : Annotation :=
+    { seq := [], labile := a.labile, static := a.static, isotope := a.isotope, unknown := a.unknown, nterm := a.nterm }
+  obtain ⟨a2, r2, hM, hE, hSS⟩ := phases_tail plus a hc a1 rfl rfl rfl rfl rfl rfl conn rest hrest
+  have hS := parseStart_sections plus a.labile a.static a.isotope a.unknown a.nterm hlab hst hiso hunk hnt _ hSS
+  refine ⟨a1, _, a2, r2, by rw [htext]; exact hS, hM, ?_⟩
+  rw [hE]
 
 theorem serialize_ne_nil (plus : Plus) (a : Annotation) (hne : a.seq ≠ []) : serialize plus a ≠ [] := by
   unfold serialize
